@@ -350,6 +350,19 @@ func checkC29(r *Result, rng *rand.Rand, thorough bool) {
 	if thorough {
 		ncases, reps = 400, 6
 	}
+	// first of all, in a child process: if concurrent use of the caches at minimal TTL brings the process down, the streams
+	// below would take this process — and the report — with them
+	stormFirst := 1000 * time.Millisecond
+	if thorough {
+		stormFirst = 4600 * time.Millisecond
+	}
+	minimalTTLStorm(r, stormFirst)
+	for _, v := range r.Violations {
+		if v.Class == "C29/crash-under-concurrency" {
+			r.Rule = "minimal-TTL storm in a child process (the in-process stream runs were not started: the server process does not survive concurrent requests)"
+			return
+		}
+	}
 	r.Rule = "2-4 concurrent request streams (CREATE/MKDIR/WRITE/READ/LOOKUP/REMOVE/RMDIR/RENAME/GETATTR on stream-private names in two shared directories, READDIR(PLUS) and SETATTR of the shared directories themselves, through the real HandleCall), random yields and delays inside every backend call, several schedules per case; minimal-TTL runs compared reply by reply with each stream's solo run (= every serial order) and final tree with the union; runs with caches enabled checked for crashes, final tree and post-run agreement of handle table and caches with the backend; thorough tier under the race detector; plus a storm of 8 simultaneous LOOKUPs of one not-yet-handled name (1500 / 12000 fresh names): one handle value for all, one live handle per path"
 	for i := 0; i < ncases; i++ {
 		c := genC29(rng)
@@ -399,7 +412,6 @@ func checkC29(r *Result, rng *rand.Rand, thorough bool) {
 		storm = 4 * time.Second
 	}
 	dirCacheStorm(r, storm)
-	minimalTTLStorm(r, storm+600*time.Millisecond)
 }
 
 // minimalTTLStorm: with an attribute-cache TTL of 1 ns every cache read finds an expired entry, so the expiry path of
